@@ -30,7 +30,7 @@ def universe_hash():
 
 def plan(tier, seed, complete=False):
     items, zinfo = PL.plan_docs(
-        tier, seed, complete, quick={"Z1": 2200, "Z2": 2200, "Z3": 1500, "Z4": 1500, "Z7": 1600}, z1_all=False, limit=LIMIT, zones=("Z1", "Z2", "Z3", "Z4", "Z7"), force_b=True
+        tier, seed, complete, quick={"Z1": 1600, "Z2": 1600, "Z3": 1100, "Z4": 1100, "Z7": 1200}, z1_all=False, limit=LIMIT, zones=("Z1", "Z2", "Z3", "Z4", "Z7"), force_b=True
     )
     return {
         "items": items, "zones": zinfo, "exhaustive": False,
